@@ -21,7 +21,7 @@ RULE = ("interval sets: every ordered selection of <=3 (quick) / <=4 (thorough) 
 ASSUMPTIONS = ["keys and interval ends are ints / binary-exact half steps (no float rounding in the reference)",
                "beyond the property's quantifier (inputs only): a sample of valid maps is additionally shared by 4 threads "
                "whose first lookups overlap, with forced GIL hand-offs - an immutable map must not depend on who looks first"]
-SHARD_TIMEOUT = {"quick": 600, "thorough": 3600}
+SHARD_TIMEOUT = {"quick": 300, "thorough": 3600}
 NSHARDS = 16
 
 
